@@ -341,6 +341,13 @@ impl Store {
                         None => (None, 0),
                     };
 
+                    // The historical replay may already have delivered `limit` frames
+                    if let Some(limit) = limit {
+                        if count >= limit {
+                            return;
+                        }
+                    }
+
                     #[cfg(feature = "verif")]
                     crate::verif::sync_point("read.live.after_done", last_id);
 
